@@ -93,6 +93,7 @@ type ghostExit struct {
 
 //@ iface chord.Mapper.GetChord (m, nameOrDisplay) returns (c, ok)
 //@   pure
+//@   ensures ok == spec.dictHas(m, nameOrDisplay)
 
 // from the document to what is played: one instance per document entry, in order, durations and settings as
 // written (only the first entry takes flag overrides), chords with their degree and bass as written and their
@@ -108,11 +109,13 @@ type ghostExit struct {
 //@   ensures err == nil ==> len(r.instances) == len(inputInstances)
 //@   ensures err == nil ==> forall(i, 0, len(inputInstances), copied(r.instances[i], inputInstances[i]))
 //@   ensures err == nil ==> forall(i, 1, len(inputInstances), sameSettings(r.instances[i], inputInstances[i]))
+//@   ensures err == nil ==> forall(i, 0, len(inputInstances), inputInstances[i].Chord != nil ==> spec.dictHas(r.cmap, inputInstances[i].Chord.Chord))
 //@   loop 0 allocs op.Instance, op.Chord, op.BPM, op.DynamicSign, op.Meter, op.Key
 //@   loop 0 modifies instances
 //@   loop 0 invariant 0 - 1 <= rangeindex && rangeindex < len(inputInstances) && len(instances) == len(inputInstances)
 //@   loop 0 invariant forall(i, 0, rangeindex + 1, copied(instances[i], inputInstances[i]))
 //@   loop 0 invariant forall(i, 1, rangeindex + 1, sameSettings(instances[i], inputInstances[i]))
+//@   loop 0 invariant forall(i, 0, rangeindex + 1, inputInstances[i].Chord != nil ==> spec.dictHas(cmap, inputInstances[i].Chord.Chord))
 //@   loop 0 decreases len(inputInstances) - rangeindex
 
 // ---- write conv prints what write reads (C10) ----
@@ -203,3 +206,9 @@ type ghostConverted struct {
 //@   loop 0 invariant forall(i, 0, rangeindex + 1, hc(converter).Elem[old(hc(converter).N) + i] == args.tree.List[i] && result[i] == hc(converter).Out[old(hc(converter).N) + i])
 //@   loop 0 invariant forall(j, 0, old(hc(converter).N), hc(converter).Elem[j] == old(hc(converter).Elem[j]) && hc(converter).Out[j] == old(hc(converter).Out[j]))
 //@   loop 0 decreases len(args.tree.List) - rangeindex
+
+// the key applier handed to play.NewWriter pairs the key it is given with the command's dictionary - the
+// property play.MIDIWriter.Write assumes of its newKey field (funcval contract in play/verif_contracts.go)
+//@ func writeCmdArgs.writeToPlay$1 returns (r)
+//@   pure
+//@   ensures r.key == k && r.cmap == w.cmap
